@@ -227,7 +227,8 @@ def generate(seed, tier):
                 nsl, sps = prev_sync[-1]["nslots"], prev_sync[-1]["sps"]     # the same pattern buffer refilled
             L = nsl * sps
             ops.append({"op": "sync", "nslots": nsl, "sps": sps, "pseed": rng.getrandbits(32), "reuse": reuse,
-                        "gvstyle": rng.choice(["sps", "sps", "fs", "fsdt"]),
+                        "gvstyle": rng.choice(["sps", "sps", "fs", "fsdt", "spsdt"]),
+                        "rxdt": rng.choice(["f8", "f8", "f8", "i2", "i1"]),
                         "d": rng.choice([0, 1, sps - 1, sps, L - 1, L // 2, rng.randrange(L), rng.randrange(L),
                                          L - 1 - rng.randrange(max(1, L // 8))]),
                         "sigma": rng.choice([0.0, 0.01, 0.05, 0.1]), "nseed": rng.getrandbits(32),
@@ -738,6 +739,10 @@ class Bench:
                 rx = rx[:2 * L - 1 - kcut]
         if op["sigma"]:
             rx = rx + np.random.RandomState(op["nseed"]).normal(0, op["sigma"] * op["amp"], rx.size)
+        if op.get("rxdt") in ("i2", "i1"):
+            # raw ADC / oscilloscope codes: the same record as a narrow integer array
+            sc_ = 100 if op["rxdt"] == "i2" else 20
+            rx = np.round((rx - op["off"]) / op["amp"] * sc_).astype(np.int16 if op["rxdt"] == "i2" else np.int8)
         tx = self.BS(bits) if op["tx"] == "bs" else bits.copy()
         if op.get("reuse"):
             # the caller keeps one pattern container per length and refills it in place between alignments
@@ -767,7 +772,7 @@ class Bench:
                 # noise, so with 10 % noise on a short pattern it wins now and then (measured: 0.2-1 % of such
                 # cases).  Independent direct correlation over the lags 0..l-1: accept its maximiser as well.
                 tmpl = np.kron(bits.astype(float), np.ones(sps))
-                c_ = np.correlate(rx[:2 * L - 1], tmpl, mode="valid")
+                c_ = np.correlate(np.asarray(rx[:2 * L - 1], dtype=float), tmpl, mode="valid")
                 best = int(np.argmax(c_))
                 if op["sigma"] and best != d and int(idx) == best:
                     self.rec.probe("SYNC: realised noise moved the correlation maximum away from d")
